@@ -1,0 +1,7 @@
+//go:build !verif
+
+package engine
+
+func verifBeforeSend(_ int) {}
+
+func verifAfterSend(_ int) {}
